@@ -125,6 +125,20 @@ fn check(flags: ParseFlags, allowed: ParseFlags) -> Result<(), PdfError> {
     Ok(())
 }
 
+/// An integer token outside the 32 bit range denotes a real number (ISO 32000-1 7.3.3).
+fn integer_or_real(lexeme: &Substr, flags: ParseFlags) -> Result<Primitive> {
+    match lexeme.to::<i32>() {
+        Ok(i) => {
+            check(flags, ParseFlags::INTEGER)?;
+            Ok(Primitive::Integer(i))
+        }
+        Err(_) => {
+            check(flags, ParseFlags::NUMBER)?;
+            Ok(Primitive::Number(t!(lexeme.to::<f32>(), lexeme.to_string())))
+        }
+    }
+}
+
 /// Recursive. Can parse stream but only if its dictionary does not contain indirect references.
 /// Use `parse_stream` if this is not sufficient.
 pub fn parse_with_lexer_ctx(lexer: &mut Lexer, r: &impl Resolve, ctx: Option<&Context>, flags: ParseFlags, max_depth: usize) -> Result<Primitive> {
@@ -177,16 +191,14 @@ fn _parse_with_lexer_ctx(lexer: &mut Lexer, r: &impl Resolve, ctx: Option<&Conte
                     gen: t!(second_lexeme.to::<GenNr>()),
                 })
             } else {
-                check(flags, ParseFlags::INTEGER)?;
                 // We are probably in an array of numbers - it's not a reference anyway
                 lexer.set_pos(pos_bk); // (roll back the lexer first)
-                Primitive::Integer(t!(first_lexeme.to::<i32>()))
+                t!(integer_or_real(&first_lexeme, flags))
             }
         } else {
-            check(flags, ParseFlags::INTEGER)?;
             // It is but a number
             lexer.set_pos(pos_bk); // (roll back the lexer first)
-            Primitive::Integer(t!(first_lexeme.to::<i32>()))
+            t!(integer_or_real(&first_lexeme, flags))
         }
     } else if let Some(s) = first_lexeme.real_number() {
         check(flags, ParseFlags::NUMBER)?;
